@@ -13,7 +13,12 @@ stub_str()
 LAST_DIFF = None
 PROG = PARAMS.get('prog', 'arith')
 STYLE = PARAMS.get('style', 'lower')
-BODY = dict(oalprogs.PROGRAMS)[PROG]
+if PROG.startswith('gen_'):
+    import oalrand
+    _seed, _k = int(PROG.split('_')[1]), int(PROG.split('_')[2])
+    BODY = oalrand.generated(_seed, _k + 1)[_k][1]
+else:
+    BODY = dict(oalprogs.PROGRAMS)[PROG]
 TEXT = oalgen.to_text(BODY, STYLE)
 ROOT = None
 
